@@ -9,7 +9,7 @@ SPEC = {
 }
 
 CLAIM = {
-    "text": "Seeded sweep of crafted proxy.DNSContext values over the grammar (configured server name x client server name x label x DoH path/request target x Host header x strict check x six protocols). Every context is pushed through the exported pre-request hook HandleBefore (observing the SERVFAIL error and the request-id -> ClientID cache entry) and through clientIDFromDNSContext; an independent implication oracle (own RFC 1123 label check, own literal-form tests, own path normal forms) decides: well-formed source => exactly lower(label); invalid label in a well-positioned source => failure; strict and name outside the configured domain => failure; plain/DNSCrypt => no ClientID whatever else is attached; any other id => unsound. A calibration subset runs a real DoT listener and a real TLS HTTP server with a self-signed certificate and shows that what the transports deliver (SNI, decoded path, Host, TLS state) gives the same outcome as the crafted context built from the same inputs. Exploration: held on the cases observed, which the evidence counts.",
-    "note": "Unspecified and therefore only counted: domain part differing in letter case or trailing dot, sub-sub-domains and empty labels (error or no id, never an id), no configured server name, paths that reach /dns-query/<id> only after normalisation, differing ids in path and server name, plain-HTTP DoH where the Host header stands in for the server name (only port-insensitivity and soundness are asserted).",
-    "technique": "runtime monitor: implication oracle over seeded crafted contexts at the HandleBefore boundary, calibrated against real TLS transports",
+    "text": "Part extract: seeded sweep of crafted proxy.DNSContext values over the grammar (configured server name x client server name x label x DoH path/request target x Host header x strict check x six protocols). Every context is pushed through the exported pre-request hook HandleBefore (observing the SERVFAIL error and the request-id -> ClientID cache entry) and through clientIDFromDNSContext; an independent implication oracle (own RFC 1123 label check, own literal-form tests, own path normal forms) decides: well-formed source => exactly lower(label); invalid label in a well-positioned source => failure; strict and name outside the configured domain => failure; plain/DNSCrypt => no ClientID whatever else is attached; any other id => unsound. A calibration subset lets real DoT and DoQ listeners and real TLS/plain HTTP servers (self-signed certificate, ServeMux with AdGuard Home's two DoH patterns) deliver contexts and shows that the fields the extraction reads and the outcome equal those of the crafted context of the same inputs. Part handoff: a running server is driven over real UDP/TCP/DoT/DoH sockets through rounds of id-carrying requests, Reconfigure and requests without id; the ClientID attached at the processing stage is read from the query-log record of each request. Exploration: held on the cases observed, which the evidence counts.",
+    "note": "Unspecified and therefore only counted: domain part differing in letter case or trailing dot, sub-sub-domains and empty labels (error or no id, never an id), no configured server name, paths that reach /dns-query/<id> only after normalisation, differing ids in path and server name, plain-HTTP DoH where the Host header stands in for the server name (only port-insensitivity and soundness are asserted). Trusted: Go's crypto/tls, net/http, net/url and quic-go as transports in the calibration.",
+    "technique": "runtime monitor: implication oracle over seeded crafted contexts at the HandleBefore boundary, calibrated against real TLS/QUIC/HTTP transports; history monitor at the query log over real sockets",
 }
